@@ -13,6 +13,23 @@ TEXT = {
           "false of the code (known finding F8).",
   "technique": "Lean 4 proof over a ledger state machine + differential replay of accepted blocks + conservation monitor",
  },
+ "C03": {
+  "text": "Supervisor.ApplyBlock (getContext, the nine checks of accountBlockVerifier.all, enoughPlasma/enoughFunds/"
+          "applySend/contract-receive regeneration compare, the four checks of accountBlockTransactionVerifier.all) as a "
+          "pure decision function over the block's fields and explicit context facts; kernel-checked: every accepted "
+          "block satisfies the property's sentence ValidBlock (verify_sound, for all blocks and all contexts), any "
+          "mutation is rejected or valid again (mutation_closed), honest user send / user receive / contract receive "
+          "are accepted (non-vacuity), the check order of the model equals the order extracted from the tree's AST. "
+          "Tied to the code by the verify stream: ~300 candidates per base block on real node states, verdict and "
+          "reason (52 distinct reasons reached) compared with the model, and a statement-only monitor on every "
+          "accepted candidate.",
+  "design_ref": "§3 C03",
+  "note": "Cryptography, PoW hash, embedded method table and contract-block regeneration are oracle facts; the decision "
+          "model is hand-written and tied by correspondence + the generated check order. Known finding F14: the content "
+          "of descendant blocks of a contract receive is not covered by any recomputed hash (negative witness theorem "
+          "descendant_content_not_pinned + concrete accepted candidates from the monitor).",
+  "technique": "Lean 4 proof over a decision-procedure model + AST-extracted check order + differential mutation stream + statement monitor",
+ },
  "C07": {
   "text": "Kernel-checked refinement: the rollback overlay that Get(X) folds from the stored undo patches, laid over the "
           "frontier, equals the store as of X for every key and every sequence of later commits (view_reconstructs), the "
